@@ -695,7 +695,11 @@ func c06Scenarios(thorough bool) []*explore.Scenario {
 			c06Cfg{Name: "t2c-40k", TgtSend: []string{big, "tail"}, TgtClose: "after-writes", AppClose: "never", Logger: true, Whole: "t2c"},
 		)
 	}
-	var scs []*explore.Scenario
+	// one large Write on the proxied connection that times out part-way behind flow control and is
+	// resumed (write_deadline_test.go; added after the independently seeded change C06-13: QStream.Write
+	// in 256 KiB pieces under-reported a partial write). Cheap, so first: they must not fall behind
+	// the deadline on a loaded machine.
+	scs := c06WriteDeadlineScenarios(thorough)
 	for _, c := range cfgs {
 		c := c
 		// sized with explore.Probe: ~270 alternatives per default schedule (window scenarios ~1200)
